@@ -12,6 +12,7 @@ import enum
 import math
 import pathlib
 import re
+import sys
 import types
 import typing as t
 from decimal import Decimal
@@ -494,6 +495,20 @@ def define_class(spec: dict, world: World):
             ns[f['n']] = pane.field(**kw)
         elif 'default' in kw:
             ns[f['n']] = kw['default']
+    if spec.get('strann'):
+        mod = sys.modules.get('simworld')
+        if mod is None:
+            mod = sys.modules['simworld'] = types.ModuleType('simworld')
+        for i, f in enumerate(spec['fields']):
+            T = ann[f['n']]
+            if isinstance(T, (tuple, dict)):
+                continue            # struct / tuple type literals cannot be named by a forward reference
+            name = f'_a{i}'
+            if spec['strann'] == 'mixed' and i % 2 == 0:
+                mod.__dict__[name] = T
+            else:
+                ns[name] = T
+            ann[f['n']] = name
     ns['__annotations__'] = ann
     ns['__module__'] = 'simworld'
     pi = spec.get('post_init')
@@ -1157,4 +1172,10 @@ def gen_class_spec(rng, world: World, name, kinds, scalars, generic_p=0.25, inhe
         # a literal tag field with a default: the class can be a member of a tagged union
         spec['fields'].append({'n': 'kind', 't': ['lit', 'k' + name], 'd': 'k' + name})
         spec['tag'] = 'k' + name
+    # annotations spelled as strings (what `from __future__ import annotations` makes of every annotation): the i-th
+    # field of every such class is spelled '_a<i>', a name bound in the class body ('local') or, for even i, re-bound
+    # in the defining module just before the class statement ('mixed') - one spelling, a different meaning per class
+    r = rng.random()
+    if r < 0.35:
+        spec['strann'] = 'local' if r < 0.2 else 'mixed'
     return spec
